@@ -204,7 +204,19 @@ func cmdWorker(args []string) int {
 				if budget == 0 {
 					budget = 1500
 				}
+				// shrinking is bounded in executions and in wall time, and keeps
+				// the parent's stall watchdog informed
+				deadline := time.Now().Add(25 * time.Second)
+				lastBeat := time.Now()
 				choices, wv.ShrinkExec = Shrink(choices, raw, budget, func(c []int) (string, int) {
+					if time.Now().After(deadline) {
+						return "", len(c)
+					}
+					if time.Since(lastBeat) > 5*time.Second {
+						lastBeat = time.Now()
+						fmt.Fprintf(w, "S %d\n", i)
+						w.Flush()
+					}
 					o := Execute(p, *sc, NewReplayTape(c), false, av)
 					if o.Viol == nil {
 						return "", o.Used
@@ -272,7 +284,7 @@ func cmdReplay(args []string) int {
 	if rf.FromSeed {
 		self, _ := os.Executable()
 		st := &checkState{hashes: map[uint64]struct{}{}}
-		stall := time.Duration(envInt("VERIF_STALL_S", 60)) * time.Second
+		stall := 5 * time.Duration(envInt("VERIF_STALL_S", 120)) * time.Second
 		r := runWorker(self, p, rf.Seed, batch{rf.Scenario, rf.RunIndex, rf.RunIndex + 1}, avoidSet(strings.Join(rf.Avoid, ",")), st, stall)
 		if r.done && len(st.viols) == 0 {
 			fmt.Println("REPLAY: the run completes without violation")
@@ -488,7 +500,7 @@ func cmdCheck(args []string) int {
 			maxS = 150
 		}
 	}
-	stallS := envInt("VERIF_STALL_S", 60)
+	stallS := envInt("VERIF_STALL_S", 120)
 	self, _ := os.Executable()
 	fmt.Printf("check property=%s tier=%s seed=%d runs=%d workers=%d engine=%s repo=%s\n", p.ID, *tier, seed, total, *workers, p.Engine, repoHead())
 
@@ -736,8 +748,14 @@ func runBatch(self string, p *Property, seed uint64, b batch, avoid map[string]b
 		}
 		culprit := -1
 		var first workerResult
+		// a single run gets five times the stall limit before it is called a
+		// hang: the batch may simply have been slow on a loaded machine
+		stall1 := stall
+		if r.stalled {
+			stall1 = 5 * stall
+		}
 		for i := start; i < b.to && i < start+66; i++ {
-			one := runWorker(self, p, seed, batch{b.sc, i, i + 1}, avoid, st, stall)
+			one := runWorker(self, p, seed, batch{b.sc, i, i + 1}, avoid, st, stall1)
 			if !one.done {
 				culprit, first = i, one
 				break
@@ -750,14 +768,14 @@ func runBatch(self string, p *Property, seed uint64, b batch, avoid map[string]b
 			return
 		}
 		// must kill its process again to count
-		again := runWorker(self, p, seed, batch{b.sc, culprit, culprit + 1}, avoid, st, stall)
+		again := runWorker(self, p, seed, batch{b.sc, culprit, culprit + 1}, avoid, st, stall1)
 		if again.done {
 			st.mu.Lock()
 			st.harness = append(st.harness, fmt.Sprintf("run %d of %s/%s killed its process once (%s) but not when repeated\n%s", culprit, p.ID, b.sc, first.what(stall), clip(first.stderr, 3000)))
 			st.mu.Unlock()
 			return
 		}
-		class, msg := fatalClass(first, stall)
+		class, msg := fatalClass(first, stall1)
 		v := &Violation{Oracle: "process-survives", Signature: p.ID + "|process-fatal|" + b.sc + "|" + class,
 			Message: fmt.Sprintf("run %d of scenario %s kills its process (%s), reproduced in two fresh processes: %s", culprit, b.sc, first.what(stall), msg)}
 		st.mu.Lock()
